@@ -37,17 +37,17 @@ def generate(ctx):
     ctx.facts = gen_graph.generate(ctx)
 
 
-def _traces(ctx, n, length):
+def _traces(ctx, n, length, tag=""):
     out = []
     for i in range(n):
-        rng = random.Random(f"e2-{ctx.seed}-{ctx.tier}-{i}")
-        out.append(asyncio.run(e2.gen_trace(rng, length)))
+        rng = random.Random(f"e2-{ctx.seed}-{ctx.tier}-{tag}{i}")
+        out.append(asyncio.run(asyncio.wait_for(e2.gen_trace(rng, length), 600)))
     return out
 
 
-def correspondence(ctx):
-    n, length = ctx.scale((24, 90), (150, 160))
-    traces = _traces(ctx, n, length)
+def correspondence(ctx, n_length=None, tag=""):
+    n, length = n_length or ctx.scale((36, 100), (150, 160))
+    traces = _traces(ctx, n, length, tag)
     ctx.traces = traces
     checks, inv_checks, proto_checks = [], [], []
     header = e2.HEADER.replace("model.GraphDump.", "model.GraphDump model.GraphInv.")
@@ -232,7 +232,15 @@ def oracle(ctx):
 
 
 def search(ctx):
-    pass
+    """An obligation or the translator broke and the regular sample produced no failing input:
+    a deeper sample of E2 traces (model/implementation disagreement, internal errors, strict
+    consistency check, invariant on every prefix)."""
+    before = len(ctx.failures)
+    for rnd in range(3):
+        correspondence(ctx, n_length=(60, 140), tag=f"search{rnd}-")
+        oracle(ctx)
+        if any(f.witness is not None for f in ctx.failures[before:]):
+            break
 
 
 def replay(ctx, obj):
